@@ -43,6 +43,39 @@ func main() {
 			}
 			return
 		}
+		if os.Getenv("F3LINT_DUMP_INLINE") != "" {
+			theCtx = c
+			for _, m := range strings.Split(os.Getenv("F3LINT_DUMP_INLINE"), ",") {
+				mention(m)
+			}
+			inlineOn = true
+			computeHelpers(c)
+			for _, f := range c.Funcs {
+				if funcName(f) == *dump {
+					vf := vfuncOf(f)
+					for _, n := range vf.Nodes {
+						fmt.Printf(" n%d [%s b%d] ->", n.Idx, funcName(n.Fn), n.Block.Index)
+						for _, su := range n.Succs {
+							fmt.Printf(" n%d", su.Idx)
+						}
+						fmt.Println()
+						for _, in := range n.Instrs {
+							switch x := in.(type) {
+							case ssa.Value:
+								fmt.Printf("    %-6s = %s\n", x.Name(), canon(x))
+							case *ssa.Store:
+								fmt.Printf("    store %s <- %s\n", canon(x.Addr), canon(x.Val))
+							case *ssa.If:
+								fmt.Printf("    if %s\n", canon(x.Cond))
+							default:
+								fmt.Printf("    %T\n", in)
+							}
+						}
+					}
+				}
+			}
+			return
+		}
 		dumpFn(c, *dump)
 		return
 	}
@@ -76,6 +109,7 @@ func main() {
 		}
 		// pass 1 (discovery): run the rules once to learn which functions they anchor on;
 		// pass 2: with every other single-call-site private helper spliced into its caller.
+		theCtx = c
 		inlineOn = false
 		computeHelpers(c)
 		f(&P{c: c, r: NewReport(*prop, *tier)})
